@@ -675,6 +675,12 @@ Definition consts_tabled (p : sprog) (steps : list instr) : bool :=
                       | None => true
                       end) (value_positions (iop s) (length (iin s)))) steps.
 
+(* the ret instruction returns as many bits as prog.Outputs declares *)
+Definition ret_bits (steps : list instr) : nat :=
+  fold_right (fun s a => match iop s with ORet => sum_bits (iin s) + a | _ => a end) 0 steps.
+Definition outbits_ok (p : sprog) (steps : list instr) : bool :=
+  Nat.eqb (fold_right Nat.add 0 (sp_outbits p)) (ret_bits steps).
+
 Definition wf_prog (p : sprog) (steps : list instr) : bool :=
   wf_ssa (map fst (sp_args p)) steps
   && nodupb (map fst (sp_args p) ++ const_keys p)
